@@ -36,6 +36,25 @@ class SkipOp(Exception):
     """Operation whose precondition does not hold (after a shrink step)."""
 
 
+class HarnessBug(Exception):
+    """A programming error of the harness itself (never the system's)."""
+
+
+_HERE = os.path.dirname(os.path.abspath(__file__))
+
+
+def _own_programming_error(e):
+    """NameError & co. raised by a line of the harness (not of chi)."""
+    if not isinstance(e, (NameError, ImportError)):
+        return False
+    tb = e.__traceback__
+    last = None
+    while tb is not None:
+        last = tb.tb_frame.f_code.co_filename
+        tb = tb.tb_next
+    return last is not None and os.path.abspath(last).startswith(_HERE)
+
+
 # ---------------------------------------------------------------------------
 # results of calls: value or exception type
 # ---------------------------------------------------------------------------
@@ -62,9 +81,14 @@ def call(f, *a, **kw):
         raise
     except RunTimeout:
         raise
+    except HarnessBug:
+        raise
     except BaseException as e:
         if isinstance(e, (KeyboardInterrupt, SystemExit, MemoryError)):
             raise
+        if _own_programming_error(e):
+            # must never be mistaken for an exception of the system
+            raise HarnessBug('%s: %s' % (type(e).__name__, e)) from e
         return Exc(e)
 
 
